@@ -202,21 +202,74 @@ func (x *X) localResolver(fr *Frame, pos token.Pos, extra map[string]types.Type)
 			}
 			// rangeindexN: hidden index of the range loop with ordinal N
 			for _, li := range findLoops(fr.fn) {
-				for _, in := range li.header.Instrs {
-					u, ok := in.(*ssa.UnOp)
-					if !ok {
+				var iter *ssa.Alloc
+				for _, b := range fr.fn.Blocks {
+					if !li.body[b] || iter != nil {
 						continue
 					}
-					a, ok := u.X.(*ssa.Alloc)
-					if !ok || a.Comment != "rangeindex" {
-						continue
-					}
-					if p, ok := fr.vals[a].(*PtrV); ok {
-						if _, ok := st.mem[p.key]; ok {
-							vars[fmt.Sprintf("rangeindex%d", li.ordinal)] = x.load(st, p)
+					for _, in := range b.Instrs {
+						s, ok := in.(*ssa.Store)
+						if !ok {
+							continue
+						}
+						if a, ok := s.Addr.(*ssa.Alloc); ok && (a.Comment == "rangeindex" || a.Comment == "rangeint.iter") {
+							// innermost loop that stores it: prefer the loop whose header dominates the store most closely
+							iter = a
+							break
 						}
 					}
-					break
+				}
+				if iter == nil {
+					continue
+				}
+				// an outer loop also "contains" the stores of inner loops: skip if an inner loop owns this alloc
+				owned := false
+				for _, lj := range findLoops(fr.fn) {
+					if lj != li && li.body[lj.header] && lj.header != li.header {
+						for _, b := range fr.fn.Blocks {
+							if !lj.body[b] {
+								continue
+							}
+							for _, in := range b.Instrs {
+								if s, ok := in.(*ssa.Store); ok && s.Addr == ssa.Value(iter) {
+									owned = true
+								}
+							}
+						}
+					}
+				}
+				if owned {
+					// find the alloc stored in li but not in any inner loop
+					iter = nil
+					for _, b := range fr.fn.Blocks {
+						if !li.body[b] {
+							continue
+						}
+						inner := false
+						for _, lj := range findLoops(fr.fn) {
+							if lj != li && li.body[lj.header] && lj.header != li.header && lj.body[b] {
+								inner = true
+							}
+						}
+						if inner {
+							continue
+						}
+						for _, in := range b.Instrs {
+							if s, ok := in.(*ssa.Store); ok {
+								if a, ok := s.Addr.(*ssa.Alloc); ok && (a.Comment == "rangeindex" || a.Comment == "rangeint.iter") {
+									iter = a
+								}
+							}
+						}
+					}
+				}
+				if iter == nil {
+					continue
+				}
+				if p, ok := fr.vals[iter].(*PtrV); ok {
+					if _, ok := st.mem[p.key]; ok {
+						vars[fmt.Sprintf("rangeindex%d", li.ordinal)] = x.load(st, p)
+					}
 				}
 			}
 		}
@@ -286,8 +339,26 @@ type loopRT struct {
 
 var loopRTs = map[*Frame]map[*loopInfo]*loopRT{}
 
+var autoInvCache = map[string]*Clause{}
+
 func (x *X) loopClauses(fr *Frame, li *loopInfo) (invs, decs []*Clause) {
-	if fr.parent != nil || x.topC == nil {
+	if fr.parent != nil {
+		return
+	}
+	// declared type invariants of pointer parameters hold at every loop head
+	for _, p := range fr.fn.Params {
+		for _, inv := range x.invariantsOf(p) {
+			key := fmt.Sprintf("%s|%d|%s|%s", funcName(fr.fn), li.ordinal, p.Name(), inv.label)
+			cl := autoInvCache[key]
+			if cl == nil {
+				cl = &Clause{Kind: "invariant", Label: "inv-" + inv.label + "-" + p.Name(), Props: inv.props, Loop: li.ordinal,
+					Text: replaceIdent(inv.text, "self", p.Name()), Line: "typeinv-loop:" + inv.line + ":" + key}
+				autoInvCache[key] = cl
+			}
+			invs = append(invs, cl)
+		}
+	}
+	if x.topC == nil {
 		return
 	}
 	for _, cl := range x.topC.Invariants {
@@ -724,7 +795,7 @@ func verifyFunction(prog *ssa.Program, db *ContractDB, fn *ssa.Function, c *Cont
 	if fn.Syntax() != nil {
 		endPos = fn.Syntax().End() - 1
 	}
-	for _, cc := range []*Contract{c, sch} {
+	for _, cc := range []*Contract{c, sch, x.defaultEnsures(fn)} {
 		if cc == nil {
 			continue
 		}
@@ -893,6 +964,13 @@ func (x *X) defaultRequires(fn *ssa.Function) *Contract {
 		}
 		c.Requires = append(c.Requires, &Clause{Kind: "requires", Label: "nonnil-" + p.Name(), Text: p.Name() + " != nil", Line: "default:nonnil:" + funcName(fn) + ":" + p.Name()})
 	}
+	// declared type invariants of parameter types
+	for _, p := range fn.Params {
+		for _, inv := range x.invariantsOf(p) {
+			c.Requires = append(c.Requires, &Clause{Kind: "requires", Label: "inv-" + inv.label + "-" + p.Name(), Props: inv.props,
+				Text: replaceIdent(inv.text, "self", p.Name()), Line: "typeinv:" + inv.line + ":" + funcName(fn) + ":" + p.Name()})
+		}
+	}
 	// Executor invariant: the path is set
 	for _, p := range fn.Params {
 		if p.Type().String() == "*github.com/theory/sqljson/path/exec.Executor" && p.Name() != "" {
@@ -901,4 +979,50 @@ func (x *X) defaultRequires(fn *ssa.Function) *Contract {
 		}
 	}
 	return c
+}
+
+func (x *X) invariantsOf(p *ssa.Parameter) []typeInv {
+	pt, ok := p.Type().Underlying().(*types.Pointer)
+	if !ok || p.Name() == "" || p.Name() == "_" {
+		return nil
+	}
+	n, ok := pt.Elem().(*types.Named)
+	if !ok || n.Obj().Pkg() == nil {
+		return nil
+	}
+	return x.db.typeInvs[n.Obj().Pkg().Path()+"."+n.Obj().Name()]
+}
+
+// defaultEnsures: a method re-establishes the declared invariants of its
+// pointer parameters (assumed by callers after the call).
+var defaultEnsCache = map[*ssa.Function]*Contract{}
+
+func (x *X) defaultEnsures(fn *ssa.Function) *Contract {
+	if c, ok := defaultEnsCache[fn]; ok {
+		return c
+	}
+	c := &Contract{Key: funcName(fn), Fn: fn, File: "default"}
+	defaultEnsCache[fn] = c
+	for _, p := range fn.Params {
+		for _, inv := range x.invariantsOf(p) {
+			c.Ensures = append(c.Ensures, &Clause{Kind: "ensures", Label: "inv-" + inv.label + "-" + p.Name(), Props: inv.props,
+				Text: replaceIdent(inv.text, "self", p.Name()), Line: "typeinv-ens:" + inv.line + ":" + funcName(fn) + ":" + p.Name()})
+		}
+	}
+	return c
+}
+
+func replaceIdent(s, from, to string) string {
+	var b strings.Builder
+	isId := func(c byte) bool { return c == '_' || c >= 'a' && c <= 'z' || c >= 'A' && c <= 'Z' || c >= '0' && c <= '9' }
+	for i := 0; i < len(s); {
+		if strings.HasPrefix(s[i:], from) && (i == 0 || !isId(s[i-1]) && s[i-1] != '.') && (i+len(from) == len(s) || !isId(s[i+len(from)])) {
+			b.WriteString(to)
+			i += len(from)
+			continue
+		}
+		b.WriteByte(s[i])
+		i++
+	}
+	return b.String()
 }
